@@ -12,7 +12,8 @@ impl Clone for EntityType { #[verifier::external_body] fn clone(&self) -> (r: Se
 impl Clone for SmolStr { #[verifier::external_body] fn clone(&self) -> (r: Self) ensures r == *self { unimplemented!() } }
 impl Clone for Pattern { #[verifier::external_body] fn clone(&self) -> (r: Self) ensures r == *self { unimplemented!() } }
 impl Clone for Name { #[verifier::external_body] fn clone(&self) -> (r: Self) ensures r == *self { unimplemented!() } }
-#[verifier::external_body] pub fn stack_size_check() -> (r: std::result::Result<(), ()>) { unimplemented!() }
+/// the stack-depth guard is not modelled: it is assumed to pass (on a stack overflow TPE answers Residual::Error)
+#[verifier::external_body] pub fn stack_size_check() -> (r: std::result::Result<(), ()>) ensures r is Ok { unimplemented!() }
 #[verifier::external_body] pub struct EvalErr { _p: u8 }
 #[verifier::external_body] pub struct Expr { _p: u8 }
 pub enum PartialValue { Value(Value), Residual(Expr) }
@@ -49,13 +50,14 @@ impl PartialEntities {
 }
 pub mod evaluator {
     use vstd::prelude::*; use super::*;
-    /// contracts proved in unit eval_ops (here only typed; the operator semantics enter through the spec functions below)
-    pub uninterp spec fn sp_relation(op: BinaryOp, a: Value, b: Value) -> Option<Value>;
-    pub uninterp spec fn sp_arith(op: BinaryOp, a: Value, b: Value) -> Option<Value>;
-    pub uninterp spec fn sp_unary(op: UnaryOp, a: Value) -> Option<Value>;
-    #[verifier::external_body] pub fn binary_relation(op: BinaryOp, a: &Value, b: &Value, e: &Extensions<'_>) -> (r: std::result::Result<Value, EvalErr>) ensures r is Ok <==> sp_relation(op, *a, *b) is Some, r is Ok ==> r->Ok_0.value == sp_relation(op, *a, *b)->Some_0.value { unimplemented!() }
-    #[verifier::external_body] pub fn binary_arith(op: BinaryOp, a: Value, b: Value, l: Option<&Loc>) -> (r: std::result::Result<Value, EvalErr>) ensures r is Ok <==> sp_arith(op, a, b) is Some, r is Ok ==> r->Ok_0.value == sp_arith(op, a, b)->Some_0.value { unimplemented!() }
-    #[verifier::external_body] pub fn unary_app(op: UnaryOp, a: Value, l: Option<&Loc>) -> (r: std::result::Result<Value, EvalErr>) ensures r is Ok <==> sp_unary(op, a) is Some, r is Ok ==> r->Ok_0.value == sp_unary(op, a)->Some_0.value { unimplemented!() }
+    /// contracts proved in unit eval_ops; here the operator semantics are carried as uninterpreted functions of the operand kinds
+    /// (None = the operator raises an error: wrong operand types or arithmetic overflow)
+    pub uninterp spec fn sp_relation(op: BinaryOp, a: ValueKind, b: ValueKind) -> Option<ValueKind>;
+    pub uninterp spec fn sp_arith(op: BinaryOp, a: ValueKind, b: ValueKind) -> Option<ValueKind>;
+    pub uninterp spec fn sp_unary(op: UnaryOp, a: ValueKind) -> Option<ValueKind>;
+    #[verifier::external_body] pub fn binary_relation(op: BinaryOp, a: &Value, b: &Value, e: &Extensions<'_>) -> (r: std::result::Result<Value, EvalErr>) ensures r is Ok <==> sp_relation(op, a.value, b.value) is Some, r is Ok ==> r->Ok_0.value == sp_relation(op, a.value, b.value)->Some_0 { unimplemented!() }
+    #[verifier::external_body] pub fn binary_arith(op: BinaryOp, a: Value, b: Value, l: Option<&Loc>) -> (r: std::result::Result<Value, EvalErr>) ensures r is Ok <==> sp_arith(op, a.value, b.value) is Some, r is Ok ==> r->Ok_0.value == sp_arith(op, a.value, b.value)->Some_0 { unimplemented!() }
+    #[verifier::external_body] pub fn unary_app(op: UnaryOp, a: Value, l: Option<&Loc>) -> (r: std::result::Result<Value, EvalErr>) ensures r is Ok <==> sp_unary(op, a.value) is Some, r is Ok ==> r->Ok_0.value == sp_unary(op, a.value)->Some_0 { unimplemented!() }
 }
 impl<'a> Extensions<'a> {
     #[verifier::external_body] pub fn func(&self, n: &Name) -> (r: std::result::Result<&ExtensionFunction, EvalErr>) { unimplemented!() }
